@@ -145,13 +145,15 @@ func Observe(dtls bool, units [2][][]byte, sec *Secrets) *View {
 			v.HelloVerifySeen = true
 		}
 	}
+	var err error
+	if chMsg != nil {
+		if v.CH, err = ParseClientHello(chMsg.Body, dtls); err != nil {
+			v.errf("ClientHello: %v", err)
+			return v
+		}
+	}
 	if chMsg == nil || shMsg == nil {
 		v.errf("no ClientHello/ServerHello pair on the wire")
-		return v
-	}
-	var err error
-	if v.CH, err = ParseClientHello(chMsg.Body, dtls); err != nil {
-		v.errf("ClientHello: %v", err)
 		return v
 	}
 	if v.SH, err = ParseServerHello(shMsg.Body); err != nil {
